@@ -418,6 +418,7 @@ impl Engine for E3 {
             sig = rng::mix(sig, 0xff);
         }
         rep.signature = rng::mix(sig, sc.root as u64);
+        rep.digest = rng::fnv(&format!("{:?}", rep.violations.iter().map(|v| (&v.class, &v.detail)).collect::<Vec<_>>()));
         rep.nontrivial = n_imports >= 2;
         rep.sample = Some(json!({
             "root": sc.files[sc.root].path,
